@@ -148,11 +148,27 @@ func init() {
 			"the model run on an ideal clock and with the property (single interruptions invisible; a stop still delivers everything received, channel closed); non-trivial = the script contains an interruption; distinct = distinct op line",
 		Gen: func(c *Ctx, emit func(class, op string)) {
 			r := c.Rng
-			cfgs := [][2]int{{0, 0}, {80, 1}, {3, 15}}
 			mk := func(cfg [2]int, items []string) string {
 				return fmt.Sprintf("reader %s %d %d %s", defaultStart, cfg[0], cfg[1], strings.Join(items, " "))
 			}
 			fail := func() string { return []string{"eof", "to"}[r.Intn(2)] }
+			cfgs := [][2]int{{0, 0}, {80, 1}, {3, 15}}
+			// configurations in which tolerance and retry pause are close together, equal, or the pause is set
+			// without a tolerance: a single interruption is invisible whenever the tolerance is non-zero, a
+			// double one whenever the second failure comes inside the tolerance, and zero tolerance stops at once
+			for i := 0; i < c.N(4, 24); i++ {
+				bs := append(randFrame(r, 2+r.Intn(8)), randFrame(r, 2+r.Intn(8))...)
+				off := 1 + r.Intn(len(bs)-1)
+				one := []string{"b:" + hx(bs[:off]), fail(), "b:" + hx(bs[off:])}
+				two := []string{"b:" + hx(bs[:off]), fail(), fail(), "b:" + hx(bs[off:])}
+				emit("tolerance-equals-pause", mk([2]int{20, 20}, one))
+				emit("pause-without-tolerance", mk([2]int{0, 5}, one))
+				emit("pause-over-half-tolerance", mk([2]int{120, 70}, one))
+				if i%2 == 0 {
+					emit("pause-over-half-tolerance", mk([2]int{120, 70}, two))
+				}
+			}
+
 			for i := 0; i < c.N(10, 60); i++ {
 				// a short stream: junk, frame, frame; one interruption at every byte offset
 				bs := append(junkRun(r, r.Intn(3)), randFrame(r, 1+r.Intn(6))...)
